@@ -161,6 +161,9 @@ POOLS = {
     # lower levels with siblings: two sections, two intervals, code + data
     "q2": [("I1", "I"), ("M1", "M"), ("S1", "S"), ("S2", "S"), ("B1", "B"),
            ("B2", "B"), ("K1", "K"), ("D1", "D")],
+    # three modules, two IRs, one section: list index arithmetic
+    "m3": [("I1", "I"), ("I2", "I"), ("M1", "M"), ("M2", "M"), ("M3", "M"),
+           ("S1", "S")],
     "tiny": [("I1", "I"), ("M1", "M"), ("M2", "M"), ("S1", "S"), ("B1", "B"),
              ("K1", "K"), ("Y1", "Y"), ("P1", "P")],
 }
@@ -1400,6 +1403,10 @@ def plan(ctx):
                                          props, c16_probes=c16, ctor_ops=False,
                                          attr_ops=False, idx_wide=False,
                                          save_load_prefix=False), None),
+            ("forest-m3", ForestScenario("m3", ["detached"], props,
+                                         c16_probes=c16, ctor_ops=False,
+                                         attr_ops=False, idx_wide=False,
+                                         save_load_prefix=False), None),
             ("forest-twins", ForestScenario("tiny", ["twins"], props,
                                             c16_probes=False, ctor_ops=False,
                                             attr_ops=False, idx_wide=False), 1),
@@ -1424,7 +1431,8 @@ def run(ctx, extra_cov=None):
     total_budget = ctx.budget
     plans = plan(ctx)
     # cheapest explorations first, so that a loaded machine caps the big one
-    plans.sort(key=lambda p: {"forest-twins": 0, "forest-q2": 1}.get(p[0], 2))
+    plans.sort(key=lambda p: {"forest-twins": 0, "forest-m3": 1,
+                              "forest-q2": 2}.get(p[0], 3))
     for i, (label, sc, max_depth) in enumerate(plans):
         cov = explore.explore(ctx, sc, max_depth=max_depth, label=label)
         covs.append(cov)
@@ -1485,6 +1493,7 @@ def replay(doc):
     table = {
         "forest-q": lambda: ForestScenario("q", [], (prop,), c16_probes=True),
         "forest-q2": lambda: ForestScenario("q2", [], (prop,), c16_probes=True),
+        "forest-m3": lambda: ForestScenario("m3", [], (prop,), c16_probes=True),
         "forest-tA": lambda: ForestScenario("tA", [], (prop,), c16_probes=True),
         "forest-tB": lambda: ForestScenario("tB", [], (prop,), c16_probes=True),
         "forest-twins": lambda: ForestScenario("tiny", [], (prop,)),
